@@ -50,7 +50,7 @@ async def settle(n=4):
         await asyncio.sleep(0)
 
 
-def run_sim(build, drive, *, start=1000.0, drain=0.0, setup=None, storage=None):
+def run_sim(build, drive, *, start=1000.0, drain=0.0, setup=None, storage=None, debug=False):
     """
     Fresh loop + fresh circuit: build() creates the blocks, then the simulation is started,
     drive(sim, objs) is awaited and the simulation is shut down.
@@ -65,6 +65,10 @@ def run_sim(build, drive, *, start=1000.0, drain=0.0, setup=None, storage=None):
         sim = Sim()
         if storage is not None:
             sim.circuit.set_persistent_data(storage)
+        if debug:
+            # debug messages on (the log records themselves are discarded): the code paths that
+            # build the messages run
+            sim.circuit.set_debug(True, '*')
         out['sim'], out['objs'] = sim, objs
         ok = await sim.start()
         out['started'] = ok
